@@ -41,9 +41,13 @@ SPEC = {
              "of subsets of {0..4} as a single fiber, every sequence of two fibers over subsets of {0..2} "
              "({0..3} thorough), every sequence of three fibers over subsets of {0..1} ({0..2} thorough); "
              "random part: longer lists, explicit default payloads, empty / disjoint / interleaved / identical "
-             "operands.  (ii) `lf`: real leader-follower intersections, leader trace fed to LeaderFollower. "
+             "operands.  The traces are registered under the rank id of the FIRST operand ('K'); the second operand "
+             "carries the same id, another id ('K0', 'k', 'K1') or no id at all (never set), in turn in the "
+             "systematic part and at random otherwise - the same totals are required.  "
+             "(ii) `lf`: real leader-follower intersections, leader trace fed to LeaderFollower. "
              "(iii) `swaps`: canonical tensors of 2..4 ranks, Compute.numSwaps at depth 0..2, radix 2..6 and "
-             "infinity, latency 1..4 and 'N', compared with an independent simulation and re-run with "
+             "infinity, latency 0..4, 7, 100 and 'N' (0 = the boundary: nothing is charged), compared with an "
+             "independent simulation and re-run with "
              "re-drawn non-zero payloads.  Non-trivial = some fiber has both operands non-empty (isect), leader "
              "non-empty (lf), or some merge group holds at least two lists (swaps); distinct = distinct case."),
     "shards": {"quick": 16, "thorough": 16},
@@ -51,13 +55,24 @@ SPEC = {
                              "multi_fiber_batches_clean": 1500, "multi_fiber_batches_known_pattern": 300,
                              "numswaps_calls": 1500, "numswaps_N_calls": 200, "numswaps_N_tiefree_calls": 200,
                              "lf_real_runs": 100, "empty_call_runs": 2000, "empty_call_feeds": 8000,
-                             "empty_calls_fed": 8000, "empty_first_calls_fed": 2000},
+                             "empty_calls_fed": 8000, "empty_first_calls_fed": 2000,
+                             "isect_runs_second_operand_other_rank_id": 5000,
+                             "isect_runs_second_operand_no_rank_id": 1500,
+                             "numswaps_zero_latency_calls": 500},
                    "thorough": {"evaluations": 60000, "oracle_evals": 600000, "model_feeds": 400000,
                                 "multi_fiber_batches_clean": 30000, "numswaps_calls": 20000,
-                                "empty_call_runs": 40000, "empty_first_calls_fed": 40000}},
+                                "empty_call_runs": 40000, "empty_first_calls_fed": 40000,
+                                "isect_runs_second_operand_other_rank_id": 50000,
+                                "isect_runs_second_operand_no_rank_id": 15000,
+                                "numswaps_zero_latency_calls": 2000}},
     "assumptions": [
         "coordinate lists of an operand = the coordinates it presents to `&` (stored elements whose payload is "
         "not the default), integer coordinates, ordered/unique fibers",
+        "the intersect_0/intersect_1 traces of `a & b` are registered, emitted and consumed under the rank id of the "
+        "FIRST operand (the rank `__and__` ticks and names its result after); the rank id of the second operand is "
+        "free - equal, different, or never set (the constructor's 'Unknown') - and takes no part in the totals.  For "
+        "real leader-follower intersections both operands carry the same id (a follower in another rank needs "
+        "Metrics.matchRanks to be traced at all; not driven)",
         "multi-fiber batches are only fed when fiber boundaries are recognisable in the trace, i.e. under at least "
         "one outer traced loop rank with strictly increasing loop points (as in a real loop nest); without an "
         "outer rank only fiber-by-fiber feeding (and a single fiber in one shot) is judged",
@@ -72,7 +87,8 @@ SPEC = {
         "intersection only the leader's count (its non-empty elements) is judged",
         "numSwaps: canonical tensors (no empty sub-fibers, no explicit default leaves), depth <= ranks-2, radix an "
         "int >= 2 or float('inf') (the docstring's radix 'N' raises TypeError in `radix > len(coords)` and is not "
-        "driven), latency a positive int or 'N'",
+        "driven), latency a non-negative int or 'N' (a stated latency of 0 is a stated latency: 0 per list and per "
+        "element, not the unbounded case)",
         "latency 'N': comparison count of inserting each new head into a sorted buffer holding one head per list "
         "= 1 + number of waiting heads with a smaller coordinate (reading fixed by test_num_swaps_undefined_next); "
         "how many waiting heads with an *equal* coordinate are passed is not stated, so with equal coordinates in a "
@@ -117,6 +133,12 @@ def _outer_for(n, d, style=0):
     return pts
 
 
+# rank id of the second operand of `&` (the first one is always "K", the rank the traces are registered under);
+# "" = the id is never set
+B_RANK_IDS_SYS = ["K", "K0", "K", "", "k"]
+B_RANK_IDS_RAND = ["K", "K", "K", "K0", "K0", "k", "K1", "", ""]
+
+
 def _sys_emp(k):
     """Empty-call pattern of the k-th systematic case of a shard: which batching it is laid over and how many
     empty calls go before the first batch / between batches / after the last batch (all 7 non-void
@@ -145,7 +167,8 @@ def generate(rng, tier, shard, nshards, mon):
             if idx % nshards == shard:
                 d = idx // nshards % 3
                 yield {"kind": "isect", "outer": _outer_for(1, d, idx), "fibers": [[_leaf(a), _leaf(b, 1)]],
-                       "groups": [1], "emp": _sys_emp(idx // nshards), "sys": "one-fiber-n5"}
+                       "groups": [1], "emp": _sys_emp(idx // nshards), "brank": B_RANK_IDS_SYS[idx // nshards % 5],
+                       "sys": "one-fiber-n5"}
             idx += 1
     mon.exhaustive["isect-one-fiber-subsets-n5"] = True
     # (b) two fibers
@@ -158,7 +181,8 @@ def generate(rng, tier, shard, nshards, mon):
                 d = 1 + (idx // nshards) % 2
                 yield {"kind": "isect", "outer": _outer_for(2, d, idx // 7),
                        "fibers": [[_leaf(p1[0]), _leaf(p1[1], 1)], [_leaf(p2[0], 2), _leaf(p2[1], 3)]],
-                       "groups": [2], "emp": _sys_emp(idx // nshards), "sys": f"two-fibers-n{n2}"}
+                       "groups": [2], "emp": _sys_emp(idx // nshards), "brank": B_RANK_IDS_SYS[idx // nshards % 5],
+                       "sys": f"two-fibers-n{n2}"}
             idx += 1
     mon.exhaustive[f"isect-two-fibers-subsets-n{n2}"] = True
     # (c) three fibers
@@ -173,7 +197,7 @@ def generate(rng, tier, shard, nshards, mon):
                     yield {"kind": "isect", "outer": _outer_for(3, d, idx // 5),
                            "fibers": [[_leaf(p[0], k), _leaf(p[1], k + 1)] for k, p in enumerate((p1, p2, p3))],
                            "groups": [[3], [1, 2], [2, 1]][idx % 3], "emp": _sys_emp(idx // nshards),
-                           "sys": f"three-fibers-n{n3}"}
+                           "brank": B_RANK_IDS_SYS[idx // nshards % 5], "sys": f"three-fibers-n{n3}"}
                 idx += 1
     mon.exhaustive[f"isect-three-fibers-subsets-n{n3}"] = True
     if not quick:
@@ -187,12 +211,12 @@ def generate(rng, tier, shard, nshards, mon):
                         yield {"kind": "isect", "outer": _outer_for(3, 1 + idx // nshards % 2, idx // 5),
                                "fibers": [[_leaf(p[0], k), _leaf(p[1], k + 1)] for k, p in enumerate((p1, p2, p3))],
                                "groups": [[3], [1, 2], [2, 1]][idx % 3], "emp": _sys_emp(idx // nshards),
-                               "sys": "three-fibers-n3"}
+                               "brank": B_RANK_IDS_SYS[idx // nshards % 5], "sys": "three-fibers-n3"}
                     idx += 1
         mon.exhaustive["isect-three-fibers-subsets-n3"] = True
     # (d) systematic numSwaps: all ordered triples of non-empty subsets of {0..2} x radix x latency
     ne = [x for x in _subsets(3) if x]
-    confs = [(r, l) for r in (2, 3, "inf") for l in (1, 3, "N")]
+    confs = [(r, l) for r in (2, 3, "inf") for l in (0, 1, 3, "N")]
     for lists in itertools.product(ne, repeat=3):
         for r, l in confs:
             if idx % nshards == shard:
@@ -310,7 +334,7 @@ def _random_case(rng):
         n = rng.choice([1, 2, 2, 3, 3, 4, 5, 6])
         d = rng.choice([0, 1, 1, 1, 2, 2])
         return {"kind": "isect", "outer": _rand_outer(rng, n, d), "fibers": [_rand_pair(rng) for _ in range(n)],
-                "groups": _rand_groups(rng, n), "emp": _rand_emp(rng)}
+                "groups": _rand_groups(rng, n), "emp": _rand_emp(rng), "brank": rng.choice(B_RANK_IDS_RAND)}
     if r < 0.62:
         n = rng.choice([1, 2, 3])
         d = rng.choice([0, 1, 2])
@@ -347,7 +371,7 @@ def _rand_swaps(rng):
     if rng.random() < 0.35:
         tree = _make_tiefree(rng, tree, depth)
     return {"kind": "swaps", "tree": tree, "nranks": nranks, "depth": depth,
-            "radix": rng.choice([2, 2, 3, 4, 5, 6, "inf", "inf"]), "latency": rng.choice([1, 2, 3, 4, "N", "N"]),
+            "radix": rng.choice([2, 2, 3, 4, 5, 6, "inf", "inf"]), "latency": rng.choice([0, 0, 1, 1, 2, 3, 4, 7, 100, "N", "N", "N", "N"]),
             "reval": rng.randint(1, 1000)}
 
 
@@ -463,7 +487,9 @@ def _execute(case, groups, style="and", slots=None):
         a = gen.fiber_from_spec(sa)
         b = gen.fiber_from_spec(sb)
         a.getRankAttrs().setId("K")
-        b.getRankAttrs().setId("K")
+        brank = case.get("brank", "K") if style == "and" else "K"
+        if brank:                                   # "" = the second operand's rank id is never set
+            b.getRankAttrs().setId(brank)
         fibers.append((a, b))
     cuts = set(itertools.accumulate(groups))
     starts = {st: i for i, st in enumerate([0] + list(itertools.accumulate(groups))[:-1])}
@@ -606,13 +632,17 @@ def _run_isect(case, mon):
             "leader-follower-a": sum(p["rows_a"] for p in per), "leader-follower-b": sum(p["rows_b"] for p in per)}
     mon.count("fibers", n)
     got_all = {}
+    brank = case.get("brank", "K")
+    ranks = "" if brank == "K" else (f", second operands in rank {brank!r}" if brank else ", rank id of the second operands never set")
     for mode, groups, slots in _modes(case):
         try:
             chunks = _execute(case, groups, slots=slots)
         except BaseException as e:      # noqa
             mon.violation(f"and-under-metrics:raised:{type(e).__name__}",
-                          f"executing a & b under Metrics ({mode}) raised {type(e).__name__}: {e}")
+                          f"executing a & b under Metrics ({mode}{ranks}) raised {type(e).__name__}: {e}")
             continue
+        if brank != "K":
+            mon.count("isect_runs_second_operand_other_rank_id" if brank else "isect_runs_second_operand_no_rank_id")
         emp = slots is not None
         base = mode[:-len(EMPTY)] if emp else mode
         if emp:
@@ -653,7 +683,7 @@ def _run_isect(case, mon):
             got_all[(mode, name)] = (total, type(exc).__name__ if exc is not None else None)
             fam = name if side is None else "leader-follower"
             detail = (f"{name} fed {mode} {groups}" + (f" with {slots} empty calls before/between/after the batches" if emp else "")
-                      + f" over fibers {[(_presented(a), _presented(b)) for a, b in case['fibers']]} outer {case['outer']}")
+                      + f" over fibers {[(_presented(a), _presented(b)) for a, b in case['fibers']]} outer {case['outer']}{ranks}")
             if where == "empty-first-call":
                 mon.violation(f"{fam}:empty-first-call:raised:{type(exc).__name__}",
                               f"{detail}: an empty first addTraces call raised {type(exc).__name__}: {exc}")
@@ -858,6 +888,8 @@ def _run_swaps(case, mon):
             mon.count("numswaps_N_calls")
             if not ties:
                 mon.count("numswaps_N_tiefree_calls")
+        elif lat == 0:
+            mon.count("numswaps_zero_latency_calls")
         vals.append(got)
         if variant == "orig":
             if lo == hi:
